@@ -326,6 +326,8 @@ impl SudokuSolver {
                     
                     // Add constraint that this cell must equal the digit
                     self.model.props.equals(self.grid[row][col], Val::int(digit));
+                    #[cfg(selen_verif)]
+                    crate::verif_hooks::sudoku_event(0, row, col, digit);
                     progress = true;
                 }
             }
@@ -351,6 +353,8 @@ impl SudokuSolver {
                 if possible_positions.len() == 1 {
                     let col = possible_positions[0];
                     self.model.props.equals(self.grid[row][col], Val::int(digit));
+                    #[cfg(selen_verif)]
+                    crate::verif_hooks::sudoku_event(1, row, col, digit);
                     progress = true;
                 }
             }
@@ -369,6 +373,8 @@ impl SudokuSolver {
                 if possible_positions.len() == 1 {
                     let row = possible_positions[0];
                     self.model.props.equals(self.grid[row][col], Val::int(digit));
+                    #[cfg(selen_verif)]
+                    crate::verif_hooks::sudoku_event(2, row, col, digit);
                     progress = true;
                 }
             }
@@ -392,6 +398,8 @@ impl SudokuSolver {
                     if possible_positions.len() == 1 {
                         let (row, col) = possible_positions[0];
                         self.model.props.equals(self.grid[row][col], Val::int(digit));
+                        #[cfg(selen_verif)]
+                        crate::verif_hooks::sudoku_event(3, row, col, digit);
                         progress = true;
                     }
                 }
@@ -612,6 +620,8 @@ impl SudokuSolver {
                             for &digit in &pair_candidates {
                                 if self.candidates[row][col].remove(digit) {
                                     progress = true;
+                                    #[cfg(selen_verif)]
+                                    crate::verif_hooks::sudoku_event(4, row, col, digit);
                                 }
                             }
                         }
@@ -646,6 +656,8 @@ impl SudokuSolver {
                             for &digit in &pair_candidates {
                                 if self.candidates[row][col].remove(digit) {
                                     progress = true;
+                                    #[cfg(selen_verif)]
+                                    crate::verif_hooks::sudoku_event(5, row, col, digit);
                                 }
                             }
                         }
@@ -695,6 +707,8 @@ impl SudokuSolver {
                             for &digit in &pair_candidates {
                                 if self.candidates[row][col].remove(digit) {
                                     progress = true;
+                                    #[cfg(selen_verif)]
+                                    crate::verif_hooks::sudoku_event(6, row, col, digit);
                                 }
                             }
                         }
@@ -964,6 +978,8 @@ impl SudokuSolver {
         let solution = self.model.solve();
         let duration = start.elapsed();
         let duration_ms = duration.as_secs_f64() * 1000.0;
+        #[cfg(selen_verif)]
+        crate::verif_hooks::sudoku_solve_status(&solution);
         
         match solution {
             Ok(sol) => {
